@@ -60,7 +60,9 @@ def shard(shard_no, nshards, seed, tier, extra):
     B = evm.boundary_constants()
     for i in range(n):
         r = rng.random()
-        if r < 0.6:
+        if r < 0.25:
+            code, feats = progs.every_producer(rng)
+        elif r < 0.6:
             code, feats = progs.growers(rng)
         elif r < 0.75:
             code, feats = progs.loopy(rng)
@@ -89,7 +91,8 @@ def run(tier, seed, t0):
         PROP, tier, seed, res, "exploration",
         "loops and straight-line code that repeatedly square, add, hash, mask, ADDMOD, EXP or SLOAD a running value "
         "(also through storage and memory), bulk copies followed by hashing, the C03 loop shapes, C07 straight-line "
-        "programs and read-mask-write programs x value size limit {1,2,3,5,8,16,50,250,1000} x iteration limit 1..12. "
+        "programs and read-mask-write programs; a grown value (or a small constant) fed into every operand position of "
+        "every operand-taking opcode, with MLOADs of whatever the opcode wrote to memory; x value size limit {1,2,3,5,8,16,50,250,1000} x iteration limit 1..12. "
         "distinct = (bytecode, config); non-trivial = some value reaches at least half the limit",
         t0, ["values 'produced by executing an instruction' are those held on stacks, in memory, in storage generations "
              "and in the recorded/logged lists; the StorageWrite wrappers made on export are only size-checked"],
